@@ -34,6 +34,7 @@ type c10bracket struct {
 	nextID  int
 	bodyEnd bool
 	parent  int
+	armed   bool
 }
 
 type c10rec struct {
@@ -85,6 +86,9 @@ const (
 )
 
 func (r *c10rec) register(b *c10bracket, t *rapid.T, kind int, depth int) {
+	if !b.armed && (kind == c10Panic || kind == c10Errorf || kind == c10Fatalf) {
+		kind = c10None // failing cleanups only in the (data dependent) cases that are meant to fail
+	}
 	id := b.nextID
 	b.nextID++
 	r.events = append(r.events, c10ev{br: b.id, kind: "reg", id: id})
@@ -206,7 +210,7 @@ func judgeBrackets(r *c10rec) (string, int) {
 
 func c10Scenarios(cfg runCfg) []Scenario {
 	var out []Scenario
-	for i := 0; i < cfg.n(1600, 20); i++ {
+	for i := 0; i < cfg.n(8000, 10); i++ {
 		if !cfg.mine(i) {
 			continue
 		}
@@ -242,6 +246,7 @@ func c10Custom(rec *c10rec, r *rng, endings ...string) *rapid.Generator[any] {
 		defer rec.bodyEnd(b, "custom")
 		rec.ctx(b, t, "start of custom fn")
 		v := rapid.IntRange(0, 50).Draw(t, "cv")
+		b.armed = mix(uint64(v), salt)%den == 0 || mix(uint64(v), salt, 1)%den == 0
 		for i, k := range kinds {
 			rec.register(b, t, k, 0)
 			if i == 0 {
@@ -298,6 +303,7 @@ func c10Body(rec *c10rec, seed uint64) func(t *rapid.T) {
 			rec.ctx(b, t, "start of property")
 		}
 		x := rapid.Uint16().Draw(t, "x")
+		b.armed = mix(uint64(x), salt)%den == 0 || mix(uint64(x), salt, 1)%den == 0
 		for i, k := range kinds {
 			rec.register(b, t, k, 0)
 			if i < len(customs) {
@@ -356,6 +362,14 @@ func c10Run(t *testing.T, sc Scenario, res *Result) {
 			res.violate(sc, "c10/escape", fmt.Sprintf("panic escaped Check: %v", tb.escaped), detail)
 		}
 		res.inc("checks_run")
+		if rp := parseReport(tb); rp.FailFile != "" {
+			// the failure was persisted: the next Check of the same test replays the fail file first (another kind of invocation)
+			before := len(rec.brackets)
+			tb2 := newTB(tb.name)
+			runCheck(tb2, c10Body(rec, sc.Seed))
+			res.inc("fail_file_replay_runs")
+			res.count("brackets_in_fail_file_replay_runs", int64(len(rec.brackets)-before))
+		}
 	case "example":
 		g := c10Custom(rec, r, "return", "Skip", "Errorf", "panic")
 		for s := 0; s < 12; s++ {
